@@ -123,3 +123,33 @@ Example C07_drain_example :
   (lc_live st' !! (1%N, 5%Z)) ≫= (.!! 11%N) = Some (VInt 2) /\
   (r_live st' !! (1%N, 5%Z)) ≫= (.!! 2%N) = Some (VInt 2).
 Proof. vm_compute. repeat split; reflexivity. Qed.
+
+(** ** one failure, then healing = the failure-free run
+    On a healthy client (any content: local data = whatever the two caches hold, queue empty) a
+    'modified' whose handler raises is parked: the target-side caches are untouched and the queue
+    holds the event.  The next retry pass, the handler now succeeding, leaves EXACTLY the state
+    the failure-free client reaches on that event ([C06_one_event]): same eight caches, empty
+    queue, no exception; only the handler log remembers the failed attempt.  For every
+    configuration (remediation disabled, the event's type without foreign key; trashbins empty),
+    every such state and every 'modified' event with a local effect. *)
+From Hermes Require Import Proofs.ClientHealthy Proofs.ClientHeal.
+Theorem C07_modified_failure_then_retry_is_failure_free : forall c outcome,
+  cc_remed c = RDisabled ->
+  forall r l n cs stp prt rty fr e ct d old lold,
+  find_ctype c (ce_t e) = Some ct -> ct_fks ct = [] -> ce_kind e = KModified d ->
+  md_empty (conv_diff ct d) = false ->
+  r !! ce_id e = Some old -> l !! ce_id e = Some lold ->
+  outcome n = HFail -> outcome (S n) = HOk ->
+  let st1 := fst (process_remote c outcome FUEL (hstate r l n cs stp prt rty fr) e None true false) in
+  (r_live st1 = r /\ l_live st1 = l /\ length (queue st1) = 1%nat) /\
+  retry_queue c outcome st1 =
+    hstate (<[ce_id e := apply_mod d old]> r) (<[ce_id e := apply_mod (conv_diff ct d) lold]> l) (S (S n))
+           (cs ++ [failed_call e ct d lold rty HFail] ++ [failed_call e ct d lold true HOk])
+           (ce_step e) (ce_partial e) false false.
+Proof. exact modified_failure_heals. Qed.
+Print Assumptions C07_modified_failure_then_retry_is_failure_free.
+(** non-vacuity: the hypotheses hold for the object and configuration of the drain example *)
+Example C07_failure_heals_hypotheses :
+  find_ctype dr_cfg 1 = Some (CType 1 [(10%N, 1%N); (11%N, 2%N)] [] 99) /\
+  md_empty (conv_diff (CType 1 [(10%N, 1%N); (11%N, 2%N)] [] 99) (MDiff ∅ {[ 2%N := VInt 1 ]} ∅)) = false.
+Proof. vm_compute. split; reflexivity. Qed.
